@@ -1,0 +1,13 @@
+//go:build verif
+
+package query
+
+import "github.com/thought-machine/please/src/core"
+
+// This file only exports unexported things for the /verif conformance harness.
+// It is compiled with -tags verif only.
+
+// VerifContainsPackage reports whether the completion walker finds a package at or below dir.
+func VerifContainsPackage(config *core.Configuration, dir string) bool {
+	return containsPackage(config, dir)
+}
